@@ -14,7 +14,7 @@ Units (one worker process per job):
   unit_verify_edge  crafted signatures: s1 in {0,1,2^{2l}-1-q,q-1}, s1+H = 0 mod q, R = O, H >= q accepted,
                     s1+q, H+-q, aliases x+p
   unit_tapes        generator tapes forcing rejection sampling (0, q, [q,p), p, [p,2^{2l}), all-ones; 1, 2, 63,
-                    64 bad candidates then a good one; 65 bad => ERR_BAD_RNG) for KeypairGen/Sign/KeyWrap/IdSign
+                    B_PER_IMPOSSIBLE bad candidates then a good one; one more => ERR_BAD_RNG) for KeypairGen/Sign/KeyWrap/IdSign
   unit_dh           DH(a,B) = DH(b,A) = model, key_len classes, invalid keys
   unit_keyt         wrap = model, unwrap(wrap) = id, key lengths 16..64, header / token alterations
   unit_ibs          IdExtract/IdSign/IdSign2/IdVerify = model; alterations of id_hash, hash, id_sig, id_pubkey,
@@ -90,9 +90,21 @@ class MemoBign(RB.Bign):
         self.C.mul = mul
 
 
+def retry_limit():
+    """B_PER_IMPOSSIBLE of include/bee2/defs.h (zz.h documents the give-up threshold of zzRandNZMod through it)"""
+    import os, re
+    from .. import build
+    txt = open(os.path.join(build.REPO, "include/bee2/defs.h"), encoding="utf-8", errors="replace").read()
+    m = re.search(r"#define\s+B_PER_IMPOSSIBLE\s+(\d+)", txt)
+    if not m:
+        raise Harness("B_PER_IMPOSSIBLE not found in defs.h")
+    return int(m.group(1))
+
+
 class Env:
     def __init__(self, ctx, l):
         self.ctx, self.lib, self.l = ctx, ctx.lib, l
+        RB.RETRIES = retry_limit()
         try:
             anchors = RB.selftest(ctx.lib, levels=(l,))
             self.M = MemoBign(ctx.lib, l)
@@ -253,8 +265,13 @@ class Env:
             det = dict(detail, consumed_octets=t.pos, model_consumes=mt.pos, candidate=hx(self.le(cand)),
                        library=[bee2.errname(g[0])] + [hx(x) for x in g[1:]],
                        model=[m[0]] + [hx(x) for x in m[1:]])
-            self.ctx.violation("%s:sampling:accepted-candidate%s" % (fn, kind),
-                               "%s stops rejection sampling at a candidate outside {1..q-1}" % fn, det)
+            if g[0] == bee2.errcode("ERR_BAD_RNG"):
+                self.ctx.violation("%s:sampling:gives-up-early" % fn,
+                                   "%s returns ERR_BAD_RNG after %d candidates (documented limit: 1 + B_PER_IMPOSSIBLE = %d)"
+                                   % (fn, t.pos // no, RB.RETRIES + 1), det)
+            else:
+                self.ctx.violation("%s:sampling:accepted-candidate%s" % (fn, kind),
+                                   "%s stops rejection sampling at a candidate outside {1..q-1}" % fn, det)
             return True
         return False
 
@@ -708,22 +725,23 @@ def unit_verify_edge(ctx):
 # ----------------------------------------------------------------------------
 
 def tape_plans(E, rng, nrand, heavy):
-    """list of (class, runs) ; runs = [(candidate, count)...]"""
-    q = E.q
+    """list of (class, runs) ; runs = [(candidate, count)...]; R = B_PER_IMPOSSIBLE: R bad candidates followed by a
+    good one must succeed, R + 1 bad candidates must give ERR_BAD_RNG"""
+    q, R = E.q, RB.RETRIES
     plans = []
     for g, nm in ((1, "good=1"), (2, "good=2"), (q - 1, "good=q-1")):
         plans.append((nm, [(g, 1)]))
     for _ in range(nrand):
         plans.append(("random", [(rng.randrange(0, E.top), 1) for _ in range(3)] + [(rand_scalar(E, rng), 1)]))
-    for r in (1, 2, 63, 64):
-        for kind in (BAD_KINDS if (heavy or r in (1, 64)) else ("zero", "[q,p)", "[p,2^2l)")):
-            plans.append(("rej%d:%s" % (r, kind), [(bad_cand(E, kind, rng), r), (rand_scalar(E, rng), 1)]))
+    for r, rn in ((1, "1"), (2, "2"), (R - 1, "R-1"), (R, "R")):
+        for kind in (BAD_KINDS if (heavy or r in (1, R)) else ("zero", "[q,p)", "[p,2^2l)")):
+            plans.append(("rej%s:%s" % (rn, kind), [(bad_cand(E, kind, rng), r), (rand_scalar(E, rng), 1)]))
         mixed = [(bad_cand(E, rng.choice(BAD_KINDS), rng), 1) for _ in range(r)]
-        plans.append(("rej%d:mixed" % r, mixed + [(rand_scalar(E, rng), 1)]))
+        plans.append(("rej%s:mixed" % rn, mixed + [(rand_scalar(E, rng), 1)]))
     for kind in (BAD_KINDS if heavy else ("zero", "[q,p)", "allones")):
-        plans.append(("allbad65:%s" % kind, [(bad_cand(E, kind, rng), 65)]))
-    plans.append(("rej65-then-good:zero", [(0, 65), (rand_scalar(E, rng), 1)]))
-    plans.append(("rej65-then-good:[p,2^2l)", [(bad_cand(E, "[p,2^2l)", rng), 65), (rand_scalar(E, rng), 1)]))
+        plans.append(("allbadR+1:%s" % kind, [(bad_cand(E, kind, rng), R + 1)]))
+    plans.append(("rejR+1-then-good:zero", [(0, R + 1), (rand_scalar(E, rng), 1)]))
+    plans.append(("rejR+1-then-good:[p,2^2l)", [(bad_cand(E, "[p,2^2l)", rng), R + 1), (rand_scalar(E, rng), 1)]))
     for _ in range(4 if heavy else 2):
         plans.append(("first-in-[q,p)", [(rng.randrange(q, E.p), 1), (rand_scalar(E, rng), 1)]))
         plans.append(("first-in-[p,2^2l)", [(rng.randrange(E.p, E.top), 1), (rand_scalar(E, rng), 1)]))
@@ -1209,10 +1227,10 @@ def required_classes():
         req += ["verify-edge/l%d/%s" % (l, k) for k in ("s1=0:valid", "s1=0:alias-s1+q", "s1=2^2l-1-q:alias-s1+q", "s1+H=q:valid",
                                                        "H=q:valid", "H=2^2l-1:valid", "H=q:alias-H-q", "H=0:alias-H+q", "R=O",
                                                        "d=1:alias-Q.x+p")]
-        req += ["tape/KeypairGen/l%d/%s" % (l, k) for k in ("rej1:[q,p)", "rej64:zero", "rej64:[q,p)", "rej63:zero", "rej2:[p,2^2l)",
-                                                           "allbad65:zero", "allbad65:[q,p)", "rej65-then-good:zero", "first-in-[q,p)",
+        req += ["tape/KeypairGen/l%d/%s" % (l, k) for k in ("rej1:[q,p)", "rejR:zero", "rejR:[q,p)", "rejR-1:zero", "rej2:[p,2^2l)",
+                                                           "allbadR+1:zero", "allbadR+1:[q,p)", "rejR+1-then-good:zero", "first-in-[q,p)",
                                                            "good=q-1", "good=1")]
-        req += ["tape/%s/l%d/%s" % (fn, l, k) for fn in ("Sign", "KeyWrap", "IdSign") for k in ("rej64:[q,p)", "allbad65:zero", "first-in-[q,p)")]
+        req += ["tape/%s/l%d/%s" % (fn, l, k) for fn in ("Sign", "KeyWrap", "IdSign") for k in ("rejR:[q,p)", "allbadR+1:zero", "first-in-[q,p)")]
         req += ["Sign/l%d/H=q" % l, "Sign2/l%d/H=2^2l-1" % l, "IdSign/l%d/H=q+1" % l, "IdSign2/l%d/H=rand>=q" % l,
                 "Sign/l%d/crafted:H=q+max,a=0" % l, "Sign/l%d/crafted:H=q+max,a=H-q-1" % l, "IdSign/l%d/crafted:H=q+1,a=0" % l]
         req += ["keyt/l%d/unwrap/%s" % (l, k) for k in ("none", "hdr:bit", "token:bit@first", "token:bit@last", "token:x-without-sqrt",
